@@ -612,6 +612,8 @@ func (h *httpWorld) malformed(i int) {
 		"GET /ws HTTP/1.1\r\nHost: galene.test\r\nUpgrade: websocket\r\nConnection: Upgrade\r\nSec-WebSocket-Version: 13\r\nSec-WebSocket-Key: dGhlIHNhbXBsZSBub25jZQ==\r\n\r\n",
 		"GET /ws HTTP/1.1\r\nHost: galene.test\r\nUpgrade: websocket\r\nConnection: Upgrade\r\nSec-WebSocket-Version: 13\r\nSec-WebSocket-Key: dGhlIHNhbXBsZSBub25jZQ==\r\nOrigin: https://evil.example\r\n\r\n",
 		"GET /ws HTTP/1.0\r\nUpgrade: websocket\r\nConnection: Upgrade\r\n\r\n",
+		"GET /ws HTTP/1.1\r\nHost: galene.test\r\nUpgrade: websocket\r\nConnection: Upgrade\r\nSec-WebSocket-Version: 13\r\nSec-WebSocket-Key: dGhlIHNhbXBsZSBub25jZQ==\r\nContent-Length: 5\r\n\r\nhello",
+		"POST /ws HTTP/1.1\r\nHost: galene.test\r\nUpgrade: websocket\r\nConnection: Upgrade\r\nSec-WebSocket-Version: 13\r\nSec-WebSocket-Key: dGhlIHNhbXBsZSBub25jZQ==\r\nContent-Length: 5\r\n\r\nhello",
 		"GET /" + strings.Repeat("a/", 4000) + " HTTP/1.1\r\nHost: x\r\n\r\n",
 		"GET / HTTP/1.1\r\nHost: x\r\n" + strings.Repeat("X-H: v\r\n", 40000) + "\r\n",
 		"GET /index.html HTTP/1.1\r\nHost: x\r\nIf-Modified-Since: yesterday\r\nIf-None-Match: \"\x01\"\r\nRange: bytes=0-,0-,0-,0-,0-,0-,0-,0-,0-,0-,0-,0-\r\n\r\n",
